@@ -201,10 +201,14 @@ def substitute_entity(
     ent = match.group(3)
 
     if match.group(1) == "#":
-        if match.group(2) == '':
-            return chr(int(ent))
-        elif match.group(2) in ('x', 'X'):
-            return chr(int('0x' + ent, 16))
+        try:
+            if match.group(2) == '':
+                return chr(int(ent))
+            elif match.group(2) in ('x', 'X'):
+                return chr(int('0x' + ent, 16))
+        except (ValueError, OverflowError):
+            # not a number, or not a code point: leave it as it is
+            return match.group()
         else:
             # FIXME: This should be unreachable, so we can
             #        try raising an AssertionError instead
